@@ -30,6 +30,7 @@ import (
 // documents
 
 type docSpec struct {
+	Big    bool        `json:"big,omitempty"` // 150 extra objects and two objects larger than the scanner's 1 KiB buffer
 	Name   string      `json:"name"`
 	V      pdf.Version `json:"version"`
 	Human  bool        `json:"human"`
@@ -102,6 +103,39 @@ func buildDoc(spec docSpec) (*document, error) {
 	if err := w.Put(str, pdf.String("a plain string object")); err != nil {
 		return nil, err
 	}
+	var extra []pdf.Reference
+	if spec.Big {
+		// many objects (a cross-reference table of several buffers) and objects
+		// that are themselves longer than the scanner's buffer, so that tokens and
+		// table entries straddle every refill boundary
+		for i := 0; i < 150; i++ {
+			ref := w.Alloc()
+			if err := w.Put(ref, pdf.Dict{"I": pdf.Integer(i), "S": pdf.String(fmt.Sprintf("object number %d", i))}); err != nil {
+				return nil, err
+			}
+			if i%37 == 0 {
+				extra = append(extra, ref)
+			}
+		}
+		long := pdf.Array{}
+		for i := 0; i < 400; i++ {
+			long = append(long, pdf.Integer(100000+i), pdf.Name(fmt.Sprintf("N%d", i)))
+		}
+		ref := w.Alloc()
+		if err := w.Put(ref, long); err != nil {
+			return nil, err
+		}
+		extra = append(extra, ref)
+		ld := pdf.Dict{}
+		for i := 0; i < 120; i++ {
+			ld[pdf.Name(fmt.Sprintf("Key%03d", i))] = pdf.String(fmt.Sprintf("value %d (with parens)", i))
+		}
+		ref = w.Alloc()
+		if err := w.Put(ref, ld); err != nil {
+			return nil, err
+		}
+		extra = append(extra, ref)
+	}
 	w.GetMeta().Catalog.Pages = pages
 	w.GetMeta().Info.Title = "The Title"
 	w.GetMeta().Info.Author = "An Author"
@@ -109,7 +143,7 @@ func buildDoc(spec docSpec) (*document, error) {
 		return nil, err
 	}
 	d.data = buf.Bytes()
-	d.refs = []pdf.Reference{pages, page, content, aux1, aux2, str}
+	d.refs = append([]pdf.Reference{pages, page, content, aux1, aux2, str}, extra...)
 	d.streams = []pdf.Reference{content}
 	return d, nil
 }
@@ -123,6 +157,9 @@ func docSpecs(thorough bool) []docSpec {
 		add(fmt.Sprintf("table-f%d", f), pdf.V1_4, false, f, "")
 		add(fmt.Sprintf("xrefstream-objstm-f%d", f), pdf.V1_7, false, f, "")
 	}
+	out = append(out, docSpec{Name: "table-150-objects", V: pdf.V1_4, Filter: 1, Big: true},
+		docSpec{Name: "xrefstream-150-objects", V: pdf.V1_7, Filter: 0, Big: true},
+		docSpec{Name: "human-150-objects", V: pdf.V1_7, Human: true, Filter: 0, Big: true})
 	add("table-human", pdf.V1_7, true, 1, "")
 	add("table-rc4", pdf.V1_4, false, 1, "secret")
 	add("xrefstream-aes128", pdf.V1_7, false, 2, "secret")
@@ -431,13 +468,24 @@ type faultySink struct {
 	w     io.Writer
 	calls *int
 	k     int
+	only  bool // fail only the k-th call (a transient failure) instead of all from k on
 	err   error
+}
+
+func (f *faultySink) fails(i int) bool {
+	if f.k < 0 {
+		return false
+	}
+	if f.only {
+		return i == f.k
+	}
+	return i >= f.k
 }
 
 func (f *faultySink) Write(p []byte) (int, error) {
 	i := *f.calls
 	*f.calls++
-	if f.k >= 0 && i >= f.k {
+	if f.fails(i) {
 		return 0, f.err
 	}
 	return f.w.Write(p)
@@ -448,7 +496,7 @@ type faultySeekSink struct{ faultySink }
 func (f *faultySeekSink) Seek(off int64, whence int) (int64, error) {
 	i := *f.calls
 	*f.calls++
-	if f.k >= 0 && i >= f.k {
+	if f.fails(i) {
 		return 0, f.err
 	}
 	return f.w.(io.Seeker).Seek(off, whence)
@@ -458,13 +506,14 @@ func (f *faultySeekSink) Seek(off int64, whence int) (int64, error) {
 type WriteCase struct {
 	Side string     `json:"side"`
 	Prog wprog.Case `json:"program"`
+	Only bool       `json:"fail_only_k"`
 	K    int        `json:"k"`
 	Of   int        `json:"sink_calls_without_fault"`
 }
 
-func writeEnv(k int, calls *int, sentinel error) *wprog.Env {
+func writeEnv(k int, only bool, calls *int, sentinel error) *wprog.Env {
 	return &wprog.Env{BigBodies: true, WrapSink: func(w io.Writer, seekable bool) io.Writer {
-		fs := faultySink{w: w, calls: calls, k: k, err: sentinel}
+		fs := faultySink{w: w, calls: calls, k: k, only: only, err: sentinel}
 		if seekable {
 			return &faultySeekSink{fs}
 		}
@@ -633,7 +682,7 @@ func Run(tier string) int {
 		plans = append(plans, wprog.Plan{Cfg: wprog.Config{V: pdf.V1_7, Seekable: true}, MaxOps: 2, DevBound: 1},
 			wprog.Plan{Cfg: wprog.Config{V: pdf.V1_4, Human: true, Seekable: false}, MaxOps: 2, DevBound: 1})
 	}
-	countEnv := func(calls *int) *wprog.Env { return writeEnv(-1, calls, nil) }
+	countEnv := func(calls *int) *wprog.Env { return writeEnv(-1, false, calls, nil) }
 	var dummy int
 	items := wprog.Items(plans, countEnv(&dummy), 3)
 	r.Dim("write_plans", len(plans))
@@ -660,35 +709,41 @@ func Run(tier string) int {
 		r.Count("write_programs", int64(len(progs)))
 		for _, p := range progs {
 			for k := 0; k < p.n && !r.Expired(); k++ {
-				sentinel := errors.New("injected sink failure")
-				var c2 int
-				var res *wprog.Result
-				fenv := writeEnv(k, &c2, sentinel)
-				cs := WriteCase{Side: "write", Prog: wprog.Case{Cfg: it.Plan.Cfg, MaxOps: it.Plan.MaxOps, Choices: p.choices, Ops: p.ops}, K: k, Of: p.n}
-				if hangs.Load() >= 6 {
-					r.Capped("enumeration stopped after 6 hanging runs")
-					return
-				}
-				if !guarded(func() {
-					explore.RunPartial(p.choices, func(c *explore.Ctx) { res = wprog.Exec(it.Plan.Cfg, c, it.Plan.MaxOps, fenv) })
-				}) {
+				for _, only := range []bool{false, true} {
+					sentinel := errors.New("injected sink failure")
+					var c2 int
+					var res *wprog.Result
+					fenv := writeEnv(k, only, &c2, sentinel)
+					cs := WriteCase{Side: "write", Prog: wprog.Case{Cfg: it.Plan.Cfg, MaxOps: it.Plan.MaxOps, Choices: p.choices, Ops: p.ops}, K: k, Only: only, Of: p.n}
+					if hangs.Load() >= 6 {
+						r.Capped("enumeration stopped after 6 hanging runs")
+						return
+					}
+					if !guarded(func() {
+						explore.RunPartial(p.choices, func(c *explore.Ctx) { res = wprog.Exec(it.Plan.Cfg, c, it.Plan.MaxOps, fenv) })
+					}) {
+						r.Eval(1)
+						r.Violation("write:hang", fmt.Sprintf("%s; %s; sink call %d of %d fails: the Writer does not return within %v", it.Plan.Cfg, strings.Join(p.ops, "; "), k, p.n, hangLimit), cs)
+						continue
+					}
 					r.Eval(1)
-					r.Violation("write:hang", fmt.Sprintf("%s; %s; sink call %d of %d fails: the Writer does not return within %v", it.Plan.Cfg, strings.Join(p.ops, "; "), k, p.n, hangLimit), cs)
-					continue
-				}
-				r.Eval(1)
-				hit := c2 > k
-				r.DistinctS(fmt.Sprintf("w|%s|%v|%d", it.Plan.Cfg, p.choices, k))
-				if f := judgeWrite(res, sentinel, hit); f != nil {
-					r.Outcome("fail:write:" + f.fp)
-					r.Violation("write:"+f.fp, fmt.Sprintf("%s; %s; sink call %d of %d fails: %s", it.Plan.Cfg, strings.Join(p.ops, "; "), k, p.n, f.what), cs)
-				} else if hit {
-					r.Outcome("write:ok:error-surfaced@" + rejectKind(res.Reject))
-				} else {
-					r.Outcome("write:fault-not-reached")
-				}
-				if r.WantSample() && k == p.n/2 && len(p.ops) > 0 {
-					r.Sample(cs)
+					hit := c2 > k
+					mode := "fail-from-k"
+					if only {
+						mode = "fail-only-k"
+					}
+					r.DistinctS(fmt.Sprintf("w|%s|%v|%d|%v", it.Plan.Cfg, p.choices, k, only))
+					if f := judgeWrite(res, sentinel, hit); f != nil {
+						r.Outcome("fail:write:" + f.fp)
+						r.Violation("write:"+f.fp+":"+mode, fmt.Sprintf("%s; %s; sink call %d of %d, %s: %s", it.Plan.Cfg, strings.Join(p.ops, "; "), k, p.n, mode, f.what), cs)
+					} else if hit {
+						r.Outcome("write:ok:error-surfaced@" + rejectKind(res.Reject))
+					} else {
+						r.Outcome("write:fault-not-reached")
+					}
+					if r.WantSample() && k == p.n/2 && len(p.ops) > 0 {
+						r.Sample(cs)
+					}
 				}
 			}
 			r.Count("sink_calls_enumerated", int64(p.n))
@@ -716,7 +771,7 @@ func Replay(path string) int {
 		var c2 int
 		var res *wprog.Result
 		explore.RunPartial(cs.Prog.Choices, func(c *explore.Ctx) {
-			res = wprog.Exec(cs.Prog.Cfg, c, cs.Prog.MaxOps, writeEnv(cs.K, &c2, sentinel))
+			res = wprog.Exec(cs.Prog.Cfg, c, cs.Prog.MaxOps, writeEnv(cs.K, cs.Only, &c2, sentinel))
 		})
 		if f := judgeWrite(res, sentinel, c2 > cs.K); f != nil {
 			r.Violation("write:"+f.fp, f.what, cs)
